@@ -40,8 +40,8 @@ type spelling struct {
 }
 
 type histStep struct {
-	Target int    // extractor slot the step acts on
-	Op     string // derive | PageCount | IsMultiColumn | IsCharacterLevel | Text | Fragments | Document | Chunks | Close
+	Target int           // extractor slot the step acts on
+	Op     string        // derive | PageCount | IsMultiColumn | IsCharacterLevel | Text | Fragments | Document | Chunks | Close
 	Calls  []builderCall // for derive: builder calls applied to Target, result stored in a new slot
 }
 
